@@ -113,11 +113,13 @@ pub struct Trace {
     pub seed: u64,
     /// reuse scenario: ops whose buffer is a prefix of a later op's buffer share its memory
     pub stable: bool,
+    /// threshold-probing run: a long clean element; the prefix sweep uses a lighter cut set
+    pub thresh: bool,
 }
 
 impl Trace {
     pub fn empty(scen: Scen, kind: Kind) -> Trace {
-        Trace { scen, kind, cfg: 0, cap: 16, entry: 1, backend: 0, reuse: 0, arr_guard: true, alloc_mode: 1, conns: Vec::new(), order: Vec::new(), ops: Vec::new(), knob_seed: 0, seed: 0, stable: false }
+        Trace { scen, kind, cfg: 0, cap: 16, entry: 1, backend: 0, reuse: 0, arr_guard: true, alloc_mode: 1, conns: Vec::new(), order: Vec::new(), ops: Vec::new(), knob_seed: 0, seed: 0, stable: false, thresh: false }
     }
 
     pub fn to_json(&self) -> J {
@@ -150,6 +152,7 @@ impl Trace {
             .set("reuse", J::u(self.reuse as u64))
             .set("arr_guard", J::Bool(self.arr_guard))
             .set("stable", J::Bool(self.stable))
+            .set("thresh", J::Bool(self.thresh))
             .set("alloc_mode", J::u(self.alloc_mode as u64))
             .set("knob_seed", J::Str(self.knob_seed.to_string()))
             .set("seed", J::Str(self.seed.to_string()))
@@ -176,6 +179,7 @@ impl Trace {
         t.reuse = g("reuse")?.as_u64().ok_or("reuse")? as u8;
         t.arr_guard = g("arr_guard")?.as_bool().ok_or("arr_guard")?;
         t.stable = j.get("stable").and_then(|x| x.as_bool()).unwrap_or(false);
+        t.thresh = j.get("thresh").and_then(|x| x.as_bool()).unwrap_or(false);
         t.alloc_mode = g("alloc_mode")?.as_u64().ok_or("alloc_mode")? as u8;
         t.knob_seed = g("knob_seed")?.as_str().ok_or("knob_seed")?.parse().map_err(|_| "knob_seed")?;
         t.seed = g("seed")?.as_str().ok_or("seed")?.parse().map_err(|_| "seed")?;
